@@ -530,6 +530,14 @@ func TestReplay(t *testing.T) {
 	if p == "" {
 		t.Skip("no VERIF_REPLAY")
 	}
+	var mc mutCase
+	if _, err := ev.LoadReplay(p, &mc); err == nil && len(mc.Order) > 0 {
+		if sig, err := checkMutations(mc); err != nil {
+			rec.Violate("TestReplay", mc, sig+": "+err.Error())
+			t.Fatalf("%s: %v", sig, err)
+		}
+		return
+	}
 	var c Case
 	if _, err := ev.LoadReplay(p, &c); err != nil {
 		t.Fatalf("harness: cannot load replay: %v", err)
